@@ -107,6 +107,9 @@ CRefs(e) ==
           /\ ((x.f # "" /\ U # {}) => x.fa)      \* the filter announces itself (not demanded of the empty answer for an unknown subject)
           /\ (Cfg.refLimit > 0 => \A i \in DOMAIN x.pages : x.pages[i] <= Cfg.refLimit)
 
+\* C16: nothing of another repository's referrers is served through this one, whatever cache / page parameters are sent
+CRefsForeign(e) == \A r \in DOMAIN e.obs : "refsforeign" \notin DOMAIN e.obs[r] \/ e.obs[r].refsforeign = <<>>
+
 \* C08: a session exists exactly while the model says it is open; the number of open sessions is exact
 CSess(e) ==
   \A r \in DOMAIN e.obs : LET o == e.obs[r] IN
@@ -202,7 +205,7 @@ CConfined(e) == e.outsum = osum
 Clauses(e) ==
   { <<"resp", CResp(e)>>, <<"tagsresp", CTagsResp(e)>>, <<"integrity", CIntegrity(e)>>, <<"sync.blobs", CSyncBlobs(e)>>,
     <<"sync.mans", CSyncMans(e)>>, <<"sync.tags", CSyncTags(e)>>, <<"taglist", CTagList(e)>>,
-    <<"refs", CRefs(e)>>, <<"sess", CSess(e)>>, <<"sess.evict", CEvict(e)>>, <<"noerr", CNoErr(e)>>,
+    <<"refs", CRefs(e)>>, <<"refs.foreign", CRefsForeign(e)>>, <<"sess", CSess(e)>>, <<"sess.evict", CEvict(e)>>, <<"noerr", CNoErr(e)>>,
     <<"gc.safe", CGCSafe(e)>>, <<"gc.exact", CGCExact(e)>>, <<"gc.idem", CGCIdem(e)>>, <<"gc.index", CGCIndex(e)>>,
     <<"disk.layout", CDiskLayout(e)>>, <<"disk.index", CDiskIndex(e)>>, <<"disk.files", CDiskFiles(e)>>,
     <<"ro.frozen", CROFrozen(e)>>, <<"ro.refused", CRORefused(e)>>, <<"confined", CConfined(e)>> }
@@ -220,7 +223,7 @@ Enforced ==
              "integrity", "gc.safe", "noerr"},
     C14 |-> {"ro.frozen", "ro.refused", "resp", "sync.blobs", "sync.mans", "sync.tags", "taglist", "refs", "noerr"},
     C14F |-> {"ro.frozen", "ro.refused", "noerr"},      \* pre-existing foreign directories: content outside the catalogue
-    C16 |-> {"confined", "resp", "sync.blobs", "sync.mans", "sync.tags", "taglist", "refs", "sess", "noerr"},
+    C16 |-> {"confined", "resp", "sync.blobs", "sync.mans", "sync.tags", "taglist", "refs", "refs.foreign", "sess", "noerr"},
     C09 |-> {"resp", "sync.blobs", "sync.mans", "sync.tags", "noerr"},
     C06 |-> {"gc.exact", "gc.idem", "gc.safe", "gc.index", "sync.blobs", "sync.mans", "sync.tags", "taglist", "noerr"} ]
 
